@@ -24,8 +24,8 @@ CHECKS = {
          "stored version 0 only; suffix length fixed at 2; 'unknown chunks are skipped in full' (headers) outside"),
  "C08": ("§6.C08", "For every catalogue type and shape, every strict prefix of the reference encoding (cut point symbolic) decodes to Err.",
          "stored version 0 only; encodings <= 48 bytes"),
- "C10": ("§6.C10", "For every rooted graph with out-degree <= 1 on <= 3 nodes (chain with optional back-edge to any node: self-loops, cycles), labels symbolic: encoding terminates, equals the reference pre-order stream (new-marker + body once, 1-based first-encounter id afterwards), and the decoded graph has Rc::ptr_eq exactly where the original has; ids never introduced are InvalidRefId.",
-         "out-degree 2 (diamonds) and more than 3 nodes outside; the user codec is the harness's own (identity = heap address)"),
+ "C10": ("§6.C10", "Small: a user codec built on store_ref_or_object / try_read_ref (identity = heap address), labels symbolic: quick tier decides the one-node graph (encode == reference stream, decode rebuilds it) and that on a fresh stream every non-zero object number is InvalidRefId for all 5-byte varints; the thorough tier adds the two-node chain, the two-cycle and a three-node graph with a self-loop on the last node (sharing checked with Rc::ptr_eq).",
+         "anything with more than two offers in one stream does not finish (pointers stored in heap-allocated map entries): cycles/diamonds on 3 nodes and offer histories are kept as tier=off harnesses; the seeded change M-C10 is not caught"),
  "C11": ("§6.C11", "Exactly the property's quantifier: all 2^32 u32 and all 2^32 i32 values through Vec<u8>, BytesMut and SizeCalculator outputs and SliceInput, OwnedInput and DeserializationContext inputs: bytes == reference formula, minimal length, continuation bits, read inverts write, cursor advanced by the length. No bound.",
          "none beyond the trusted base"),
  "C12": ("§6.C12", "One symbolic element list (n = 0, 2, 3) in the known-length and in the unknown-length form decodes identically as Vec, LinkedList and [E; n]; Vec, slice, array, LinkedList encode identically and an inexact iterator yields the unknown-length form; byte containers (Vec<u8>, &[u8], [u8; n], Bytes) are interchangeable.",
@@ -38,8 +38,8 @@ CHECKS = {
          "3 operations, 6 bytes"),
  "C17": ("§6.C17", "Every Unicode scalar value for char (Ok with the reference bytes iff <= U+FFFF, else UnsupportedCharacter); every exact size_hint and zero-width Vec/slice length > i32::MAX gives LengthTooLarge; transient constructors; FieldPosition byte for every (chunk, position); a failed encoding hands back no output; nothing panics.",
          "UnknownFieldReferenceInEvolutionStep and the 255-step limit outside"),
- "C18": ("§6.C18", "Sequential histories only: after an arbitrary prior encode and decode call, encode/decode results equal the reference (which depends on the argument alone), repeated calls give the same bytes, string ids restart per call.",
-         "thread interleavings and first-use lazy initialisation under contention are NOT covered (Kani has no concurrency; lazy_static is modelled sequentially)"),
+ "C18": ("§6.C18", "Sequential histories only: after an arbitrary prior encode call and an arbitrary prior decode call, encode/decode results equal the reference (which depends on the argument alone), repeated calls give the same bytes, a failed encoding does not affect the next call.",
+         "thread interleavings and first-use lazy initialisation under contention are NOT covered (Kani has no concurrency; lazy_static is modelled sequentially); per-call restart of string ids does not finish (tier=off)"),
  "C19": ("§6.C19", "Input half: the three unsafe decode paths ([T; L], [u8; L], Vec<u8>) and try_read_ref run under CBMC's pointer checks on all byte strings within the C05 bounds and agree with the reference decoder. A safe-code lifetime-escape witness (reference to a scoped Box read back through try_read_ref) compiles and CBMC reports the dead-object dereference: recorded as a known finding.",
          "'every safe client program' is not a solver question; uninitialised reads are seen only through the differential assertion (-Z uninit-checks crashes this Kani)"),
 }
